@@ -50,6 +50,7 @@ Record InvH (s : state) : Prop := {
   h_3 : forall h : hid, hc s h = HCCheck -> ctx_done s = true;
   h_4 : forall h : hid, hc s h = HCWaitPump -> 1 <= sub_closes s h;
   h_4' : forall h : hid, hc s h = HCDecSignal -> 1 <= sub_closes s h;
+  h_4'' : forall h : hid, hc s h = HCInSubClose -> 1 <= sub_closes s h;
   h_5 : forall h : hid, fix6 s = true -> early_cancel s = false -> hc_decided (hc s h) = true -> 1 <= sub_closes s h
 }.
 
@@ -58,7 +59,7 @@ Proof. constructor; simpl; intros; try congruence; destruct (Nat.ltb h n); simpl
 
 Lemma InvH_step s l s' : InvC s -> InvH s -> step s l = Some s' -> InvH s'.
 Proof.
-  intros IC [H1 H2 H3 H4 H4' H5] H.
+  intros IC [H1 H2 H3 H4 H4' H4'' H5] H.
   pose proof (c_run1 s IC) as Crun.
   destruct l; step_cases H.
   all: constructor; simpl; intros; try solve [auto]; upd_all; try solve [auto]; fin.
@@ -322,4 +323,17 @@ Proof.
   apply (a_pub s IA h). specialize (Hq h).
   destruct (lp s h) eqn:E; simpl in *; try discriminate; [|reflexivity].
   exfalso. apply (a_hb2 s IA h); [lia | assumption].
+Qed.
+
+(** the timeout needs nobody else: from a waiting Close call, three steps of that call alone lead
+    to the error return with closedCh closed and the lock released - whatever the other threads
+    are doing, in particular a handleClose goroutine blocked inside its subscriber's Close() *)
+Theorem timeout_alone_returns_error s c :
+  cp s c = CWait ->
+  exists s', replay s [LTimeout c; LClose c; LClose c] = Some s' /\
+             cp s' c = CRet RErr /\ closedCh s' = true /\ closedLock s' = None /\
+             hc s' = hc s /\ mp s' = mp s /\ lp s' = lp s.
+Proof.
+  intros H. unfold replay, step. rewrite H. simpl. rewrite upd_same. simpl. rewrite upd_same.
+  eexists. split; [reflexivity|]. simpl. rewrite upd_same. repeat split; reflexivity.
 Qed.
